@@ -35,7 +35,7 @@ python3 - "$ID" "$CONF" "$DW" "$DP" "$SU" "$PASSED" "[${RESULTS%,}]" <<'PY'
 import json,sys,os,re
 ID,conf,dw,dp,su,passed,res=sys.argv[1:8]
 notes=open(f'/verif/seeded/{ID}/notes.md').read() if os.path.exists(f'/verif/seeded/{ID}/notes.md') else ''
-meta={"breaks_property":ID.split('-')[0],"confirmed":conf=="yes",
+meta={"breaks_property":ID[:3],"confirmed":conf=="yes",
  "confirmation":{"demo_without_change_exit":int(dw),"demo_with_change_exit":int(dp),"existing_suite_with_change_exit":int(su),"existing_suite_tests_passed":int(passed or 0),
    "how":"scratch worktree of /repo HEAD: cargo test --offline --test seeded_demo without the patch, then with it; then cargo test --offline (demo moved aside) with the patch"},
  "needs_to_manifest":"see notes.md (written by the sub-agent that produced the change)",
